@@ -158,6 +158,11 @@ func (e *c01env) sign1(r *mon.Rand, in map[string]any, base string, h cose.Heade
 	var wire []byte
 	var err error
 	msg := &cose.Sign1Message{Headers: h, Payload: payload}
+	if !helper && c01useCtor(rec, in) {
+		msg = cose.NewSign1Message()
+		c01fillHeaders(&msg.Headers, h)
+		msg.Payload = payload
+	}
 	if helper {
 		if guard(rec, kind, in, func() {
 			if tagged {
@@ -290,6 +295,11 @@ func (e *c01env) signN(r *mon.Rand, in map[string]any, i int, payload, ext []byt
 	body := c01headers(r, 0, 1, mon.Pick(r, 0, 3, 8), c01fill(r, false))
 	delete(body.Protected, int64(1))
 	msg := &cose.SignMessage{Headers: body, Payload: payload}
+	if c01useCtor(rec, in) {
+		msg = cose.NewSignMessage()
+		c01fillHeaders(&msg.Headers, body)
+		msg.Payload = payload
+	}
 	signers := make([]cose.Signer, n)
 	verifiers := make([]cose.Verifier, n)
 	algs := ""
@@ -401,6 +411,10 @@ func (e *c01env) signatureAlone(r *mon.Rand, in map[string]any, base string, h c
 		return
 	}
 	sig := &cose.Signature{Headers: h}
+	if c01useCtor(rec, in) {
+		sig = cose.NewSignature()
+		c01fillHeaders(&sig.Headers, h)
+	}
 	if guard(rec, "Signature.Sign", in, func() { err = sig.Sign(gen.Entropy, signer, bodyProt, payload, ext) }) {
 		return
 	}
@@ -629,6 +643,11 @@ func (e *c01env) countersign(r *mon.Rand, in map[string]any, base string, i int,
 		mode = r.Intn(3)
 	}
 	cs := &cose.Countersignature{Headers: c01headers(r, k.Alg, mode, mon.Pick(r, 0, 2, 5), mon.Pick(r, 0, 0, 14, 240))}
+	if c01useCtor(rec, in) {
+		hh := cs.Headers
+		cs = cose.NewCountersignature()
+		c01fillHeaders(&cs.Headers, hh)
+	}
 	if guard(rec, "Countersignature.Sign", in, func() { err = cs.Sign(gen.Entropy, signer, parent, ext) }) {
 		return
 	}
@@ -877,4 +896,32 @@ func c01keyVariant(r *mon.Rand, c *Ctx) (cose.Signer, cose.Verifier, string, boo
 		return nil, nil, "", false
 	}
 	return s, v, name, true
+}
+
+// c01useCtor decides (from the case index, so that the PRNG stream is untouched) whether the object
+// is obtained from the library's New* constructor and filled entry by entry, instead of a literal.
+func c01useCtor(rec *mon.Recorder, in map[string]any) bool {
+	i, _ := in["case"].(int)
+	use := i%3 == 1
+	if use {
+		rec.Event("built-through-constructor")
+		in["constructor"] = true
+	}
+	return use
+}
+
+// c01fillHeaders copies a generated header set into constructor-made (non-nil, empty) maps; the
+// algorithm goes through SetAlgorithm when it is spelt with the customary int64 label.
+func c01fillHeaders(dst *cose.Headers, src cose.Headers) {
+	for k, v := range src.Protected {
+		if a, isAlg := v.(cose.Algorithm); isAlg && k == any(int64(1)) {
+			dst.Protected.SetAlgorithm(a)
+			continue
+		}
+		dst.Protected[k] = v
+	}
+	for k, v := range src.Unprotected {
+		dst.Unprotected[k] = v
+	}
+	dst.RawProtected, dst.RawUnprotected = src.RawProtected, src.RawUnprotected
 }
